@@ -22,6 +22,16 @@ def rules(chk, db):
     # "prior state does not matter" contract is the typestate exploration of those classes (shared with C12/C13)
     c13.typestate(chk, db, prefix='TS.')
     c12.explore(chk, db, prefix='TV.')
+    # "completely overwritten" rests on the readers' block transfers filling the whole requested range or failing
+    from .. import rwrules
+    chk.rule('C', 'buffer readers copy exactly the requested bytes', minimum=2)
+    chk.rule('ST', 'stream reader primitives move exactly the requested bytes and report the stream state', minimum=3)
+    chk.rule('SS', 'stream reader status mapping', minimum=1)
+    chk.rule('FD', 'fd reader transfers every requested byte or fails', minimum=2)
+    for rec in ('nop::BufferReader', 'nop::PedanticBufferReader'):
+        rwrules.check_buffer_class(chk, db, rec, {'T': None, 'G': None, 'E': None, 'C': 'C'}, guard_required=False)
+    rwrules.check_stream_class(chk, db, 'nop::StreamReader', 'reader', 'ST', 'SS')
+    rwrules.check_fd_class(chk, db, 'nop::FdReader', 'reader', 'FD')
     chk.rule('LBV', 'LogicalBuffer view: begin/end/size/operator[] denote data[0], data[size], the size member, data[i]', minimum=4)
     encrules.logical_buffer_view(chk, db, 'LBV')
 
